@@ -199,7 +199,11 @@ def sc_single(exe):
     r = setup3(exe)
     try:
         r.kill(signal.SIGINT)
-        r.err_has(LISTED, 2)
+        r.until(lambda: r.status is not None or len(listed(r)) >= 2, "the answer to the single ^C")
+        if r.status is not None:
+            return [("real-threads:single-int-aborted", "a single ^C (the first of the run, clock %d, no -b) was taken for the "
+                     "second one: exit status %s, forwarded %s, stderr %r" %
+                     (CLOCK, r.p.returncode, [e for e in r.events if e.startswith("F")], r.stderr()[-120:]))], r
         out = []
         if sorted(listed(r)) != [("h0", "command in progress"), ("h1", "connecting")]:
             out.append(("real-threads:listing", "single ^C with h0 running, h1 connecting, h2 not started listed %s" % listed(r)))
@@ -280,9 +284,10 @@ def sc_cancel(exe, gap, S=0):
             if (rc != 0) != (want != 0):
                 out.append(("real-threads:cancel-rc", "^C ^Z%s: exit status %s" % (" with -S" if S else "", rc)))
         else:
-            r.stops(1)
+            r.until(lambda: r.stopped >= 1 or re.search(r"Canceled \d+ pending", r.stderr()), "the process stopping")
             if re.search(r"Canceled \d+ pending", r.stderr()):
-                out.append(("real-threads:cancel-without-interrupt", "^Z %d s after ^C canceled pending hosts" % gap))
+                return [("real-threads:cancel-without-interrupt", "^Z %d s after ^C (more than INTR_TIME) canceled the pending "
+                         "hosts instead of stopping pdsh" % gap)], r
             os.kill(r.p.pid, signal.SIGCONT)
             rc = finish3(r)
             if rc != 0:
@@ -296,7 +301,10 @@ def sc_lone_tstp(exe):
     r = setup3(exe)
     try:
         r.kill(signal.SIGTSTP)
-        r.stops(1)
+        r.until(lambda: r.stopped >= 1 or re.search(r"Canceled \d+ pending", r.stderr()), "the process stopping")
+        if not r.stopped:
+            return [("real-threads:lone-tstp", "lone ^Z (no ^C before it) canceled the pending hosts instead of stopping pdsh: "
+                     "stderr %r" % r.stderr()[-200:])], r
         out = []
         os.kill(r.p.pid, signal.SIGCONT)
         rc = finish3(r)
